@@ -368,3 +368,25 @@ Qed.
 Lemma phase_reinit_generated :
   phase_reinit_ok phase_init_consts phase_init_others phase_store_reinit_calls phase_alloc_init_calls = true.
 Proof. vm_compute. reflexivity. Qed.
+
+(* ---------------------------------------------------------------- caller-side cache of the fugacity coefficient (prep.cpp) *)
+(* adjust_setup_pure_phases / adjust_setup_solution reuse the phi cached on the phase (pr_phi, pr_si_f) without calling calc_PR
+   ONLY when the cache is marked valid and was computed for the same pressure AND the same temperature. *)
+Definition cache_guard_ok (g : bexpr) : Prop :=
+  forall pr_in p pr_p t pr_tk,
+    evalB (env_of [pr_in; p; pr_p; t; pr_tk]) g <-> (pr_in = 0 \/ p <> pr_p \/ t <> pr_tk).
+
+Lemma cache_guard_generic : forall g,
+  g = BOr (BOr (BNot (BNe (Var 0) (Const (0 # 1)))) (BNe (Var 1) (Var 2))) (BNe (Var 3) (Var 4)) -> cache_guard_ok g.
+Proof.
+  intros g -> pr_in p pr_p t pr_tk. cbn [evalB evalR env_of nth]. rewrite Q2R_make.
+  replace (0 / 1) with 0 by field. split.
+  - intros [[H | H] | H]; [left | right; left; exact H | right; right; exact H].
+    destruct (Req_dec pr_in 0) as [E | E]; [exact E | contradiction].
+  - intros [H | [H | H]]; [left; left; intro N; apply N; exact H | left; right; exact H | right; exact H].
+Qed.
+
+Lemma phi_cache_guards :
+  cache_guard_ok pp_phi_cache_guard /\ cache_guard_ok sb_phi_cache_guard /\
+  pp_calc_PR_call = "calc_PR(phase_ptrs, p, t, 0)"%string /\ sb_calc_PR_call = "calc_PR(phase_ptrs, p, t, 0)"%string.
+Proof. repeat split; try reflexivity; apply cache_guard_generic; reflexivity. Qed.
